@@ -14,6 +14,7 @@ BAD_ALGO = ["sha257", "", "md6", "SHA-999", "a b"]
 BAD_SIZE = [0, -1, "5", 1.5]
 BAD_DATA = [7, b"bytes", ["list"], "", "   ", "/nonexistent/file/xyz", None]
 DATA = pattern(300, 3)
+DATA2 = pattern(41, 9)
 TIER = "quick"
 
 
@@ -21,19 +22,26 @@ def grammar(paths):
     import hashlib
     from hashstore.filehashstore import ObjectMetadata
     cid = hashlib.sha256(DATA).hexdigest()
-    om = ObjectMetadata("x", cid, len(DATA), common.digests(DATA, common.DEFAULT_ALGOS))
+    om = ObjectMetadata("x", hashlib.sha256(DATA2).hexdigest(), len(DATA2), common.digests(DATA2, common.DEFAULT_ALGOS))
     md5 = hashlib.md5(DATA).hexdigest()
+    md5_2 = hashlib.md5(DATA2).hexdigest()
     g = {
         "store_object": {
             "valid": {"pid": "new", "data": paths["data"], "additional_algorithm": "sha224", "checksum": md5,
                       "checksum_algorithm": "md5", "expected_object_size": len(DATA)},
+            "stress": [{"expected_object_size": len(DATA) + 1}, {"checksum": "0" * 32}, {"data": paths["data2"]},
+                       {"pid": "held"}],
             "bad": {"pid": BAD_ID[1:], "data": BAD_DATA, "additional_algorithm": BAD_ALGO + [5],
                     "checksum": BAD_ID[1:] + [None], "checksum_algorithm": BAD_ALGO + [None, " "],
                     "expected_object_size": BAD_SIZE},
         },
         "tag_object": {"valid": {"pid": "new", "cid": cid}, "bad": {"pid": BAD_ID, "cid": BAD_ID}},
         "delete_if_invalid_object": {
-            "valid": {"object_metadata": om, "checksum": md5, "checksum_algorithm": "md5", "expected_file_size": len(DATA)},
+            "valid": {"object_metadata": om, "checksum": md5_2, "checksum_algorithm": "md5", "expected_file_size": len(DATA2)},
+            # well-formed values that do not match the object: a call rejected for ANOTHER argument must still
+            # change nothing
+            "stress": [{"expected_file_size": len(DATA2) + 1}, {"checksum": "0" * 32},
+                       {"expected_file_size": len(DATA2) + 1, "checksum": "0" * 32}],
             "bad": {"object_metadata": [None, "str", {"cid": cid}], "checksum": BAD_ID, "checksum_algorithm": BAD_ID + BAD_ALGO,
                     "expected_file_size": BAD_SIZE},
         },
@@ -53,9 +61,12 @@ def _method(args):
     method, populated = args
     from hashstore.filehashstore import FileHashStore
     root = os.path.join(common.scratch(), "c17-%s-%d" % (method, populated))
-    paths = {"data": os.path.join(common.scratch(), "c17_data"), "doc": os.path.join(common.scratch(), "c17_doc")}
+    paths = {"data": os.path.join(common.scratch(), "c17_data"), "doc": os.path.join(common.scratch(), "c17_doc"),
+             "data2": os.path.join(common.scratch(), "c17_data2")}
     with open(paths["data"], "wb") as f:
         f.write(DATA)
+    with open(paths["data2"], "wb") as f:
+        f.write(DATA2)
     with open(paths["doc"], "wb") as f:
         f.write(b"<doc/>")
     store = FileHashStore(common.props(root))
@@ -64,7 +75,7 @@ def _method(args):
         store.store_object("other", paths["doc"])
         store.store_metadata("held", paths["doc"])
         store.store_metadata("held", paths["doc"], "fmt")
-        store.store_object(None, paths["data"])
+        store.store_object(None, paths["data2"])  # an unreferenced object
     g = grammar(paths)[method]
     res, n, classes = [], 0, set()
     before = snapshot(root)
@@ -79,8 +90,17 @@ def _method(args):
         for v in vs_p:
             for w in vs_q:
                 cases.append({p: v, q: w})
-    for bad in cases:
+    stressed = []
+    for st in g.get("stress", []):
+        for p in params:
+            if p in st:
+                continue
+            for v in g["bad"][p]:
+                stressed.append((st, {p: v}))
+    for item in [({}, b) for b in cases] + stressed:
+        st, bad = item
         kw = dict(g["valid"])
+        kw.update(st)
         kw.update(bad)
         if method == "store_object" and ("checksum" in bad) != ("checksum_algorithm" in bad) and \
                 (bad.get("checksum", 1) is None or bad.get("checksum_algorithm", 1) is None):
@@ -97,10 +117,13 @@ def _method(args):
             out = type(e).__name__
         after = snapshot(root)
         ll = locked_lists(store)
-        classes.add((method, tuple(sorted(bad)), out))
+        classes.add((method, tuple(sorted(bad)), tuple(sorted(st)), out))
         what = None
         if out == "ok":
             what = "a call with an invalid %s was accepted" % "+".join(sorted(bad))
+        elif st and out in ("NonMatchingChecksum", "NonMatchingObjSize", "HashStoreRefsAlreadyExists",
+                            "PidRefsAlreadyExistsError"):
+            pass  # which of two applicable rejections comes first is not prescribed; the store must not change
         elif out not in DOCUMENTED:
             what = "a call with an invalid %s raised %s (not a documented class)" % ("+".join(sorted(bad)), out)
         if after != before:
@@ -109,7 +132,8 @@ def _method(args):
             what = "a rejected call left an identifier locked"
         if what:
             res.append(({"kind": "rejected", "method": method, "what": what},
-                        {"bad": {k: repr(v) for k, v in bad.items()}, "outcome": out, "populated": bool(populated),
+                        {"bad": {k: repr(v) for k, v in bad.items()}, "with": {k: repr(v) for k, v in st.items()},
+                         "outcome": out, "populated": bool(populated),
                          "diff": common.tree_diff(before, after)[:8]}))
             if after != before:
                 common.restore(root, before)
